@@ -264,7 +264,7 @@ impl Object for PdfStream {
     fn from_primitive(p: Primitive, resolve: &impl Resolve) -> Result<Self> {
         match p {
             Primitive::Stream (stream) => Ok(stream),
-            Primitive::Reference (r) => PdfStream::from_primitive(resolve.resolve(r)?, resolve),
+            Primitive::Reference (r) => PdfStream::from_primitive(resolve.resolve_value(r)?, resolve),
             p => Err(PdfError::UnexpectedPrimitive {expected: "Stream", found: p.get_debug_name()})
         }
     }
@@ -412,7 +412,7 @@ impl Object for PdfString {
     fn from_primitive(p: Primitive, r: &impl Resolve) -> Result<Self> {
         match p {
             Primitive::String (string) => Ok(string),
-            Primitive::Reference(id) => PdfString::from_primitive(r.resolve(id)?, &NoResolve),
+            Primitive::Reference(id) => PdfString::from_primitive(r.resolve_value(id)?, &NoResolve),
             _ => unexpected_primitive!(String, p.get_debug_name()),
         }
     }
